@@ -74,14 +74,20 @@ func Persist(seg segment.Segment) (out []byte, err error) {
 func PersistCh(seg segment.Segment, closeCh chan struct{}) (out []byte, err error) {
 	err = safely("WriteTo", func() error {
 		var buf bytes.Buffer
+		// the destination may already hold bytes of the caller's (a container header, earlier files)
+		pre := 0
+		if seg.Count()%3 == 1 {
+			buf.WriteString("CALLER-HEADER")
+			pre = buf.Len()
+		}
 		n, e := seg.WriteTo(&buf, closeCh)
 		if e != nil {
 			return e
 		}
-		if n != int64(buf.Len()) {
-			return fmt.Errorf("WriteTo returned %d but wrote %d bytes", n, buf.Len())
+		if n != int64(buf.Len()-pre) {
+			return fmt.Errorf("WriteTo returned %d but wrote %d bytes (behind %d bytes the destination already held)", n, buf.Len()-pre, pre)
 		}
-		out = buf.Bytes()
+		out = buf.Bytes()[pre:]
 		return nil
 	})
 	return out, err
@@ -180,14 +186,19 @@ func PublicMerge(segs []segment.Segment, drops []*roaring.Bitmap, bufSize int) (
 		if len(segs) > 0 {
 			closeCh = openCloseCh(segs[0])
 		}
+		pre := 0
+		if len(segs) > 0 && segs[0].Count()%3 != 1 {
+			buf.WriteString("CALLER-HEADER")
+			pre = buf.Len()
+		}
 		n, e := m.WriteTo(&buf, closeCh)
 		if e != nil {
 			return e
 		}
-		if n != int64(buf.Len()) {
-			return fmt.Errorf("Merger.WriteTo returned %d but wrote %d bytes", n, buf.Len())
+		if n != int64(buf.Len()-pre) {
+			return fmt.Errorf("Merger.WriteTo returned %d but wrote %d bytes (behind %d bytes the destination already held)", n, buf.Len()-pre, pre)
 		}
-		out, maps = buf.Bytes(), m.DocumentNumbers()
+		out, maps = buf.Bytes()[pre:], m.DocumentNumbers()
 		return nil
 	})
 	return out, maps, err
